@@ -131,6 +131,14 @@ Definition pipeline (tc use_memo : bool) (P : wprog) (q : key) (e : list key) : 
   | _ => None
   end.
 
+(* all queries at once, as the real pipeline does: ONE acyclic formula for all query and evidence
+   names (it contains the atoms relevant to any of them), one answer per query *)
+Definition pipeline_all (tc use_memo : bool) (P : wprog) (qs : list key) (e : list key) : option (list presult) :=
+  match break_cycles_m tc use_memo (wp_graph P) (ai_of P) qs e with
+  | Some (D, kqs, kes) => Some (map (fun kq => normalize (pipe_wmc P D (kq :: kes)) (pipe_wmc P D kes)) kqs)
+  | None => None
+  end.
+
 (* the same with compiled circuits in place of the two counts (SimpleDDNNFEvaluator) *)
 Definition pipe_eval (P : wprog) (D : graph) (C : ModelCircuit.circuit) : Qc :=
   ModelCircuit.c_eval ModelOracle.QcOps (wkey P D) C.
